@@ -105,8 +105,9 @@ Example C11_headers_examples :
 Proof. vm_compute. repeat split. Qed.
 
 (* ---- Upload anywhere in the variables => multipart (after /repo dd85cf5; finding
-   C11-model-under-dict fixed, refutation removed).  For every call whose variables hold UNSET only
-   as top-level values (vars_ok):
+   C11-model-under-dict fixed, refutation removed).  For every call in which json.dumps meets no UNSET
+   (vars_reach_unset = false: UNSET only as a top-level value or in an unset model field — the exact
+   restriction, see C11_nothing_sent_iff_unset_met; it was the wider vars_ok before):
    * conversion loses no Upload: the uploads separate_files reaches in the converted tree ct are the
      Upload objects anywhere in the caller's variables (lists, dicts, set fields of models), in order;
    * a request is always built (never RError); it is JSON iff there is no Upload at all, otherwise
@@ -114,7 +115,7 @@ Proof. vm_compute. repeat split. Qed.
      C11_nulled_exact / C11_upload_positions_null), whose map is expected_map (entry i = every path of
      file i: C11_map_entries, C11_map_lists_exactly_upload_positions) and whose file parts are the
      distinct Uploads, each once (NoDup, same set). ---- *)
-Definition C11_upload_anywhere_full : Prop := forall url q o vars h t, vars_ok vars = true ->
+Definition C11_upload_anywhere_full : Prop := forall url q o vars h t, vars_reach_unset vars = false ->
   let c := mk_call q o (Some vars) h t in
   let ct := VDict (convert_dict vars) in
   map snd (uploads_at [] ct) = all_upload_ids vars /\
@@ -128,7 +129,7 @@ Definition C11_upload_anywhere_full : Prop := forall url q o vars h t, vars_ok v
     (all_upload_ids vars <> [] ->
        build_request url c = RMultipart url h t (body_json q o vj) (fmap_json fmap) (files_parts files)).
 Theorem C11_upload_anywhere : C11_upload_anywhere_full.
-Proof. exact upload_anywhere. Qed.
+Proof. exact upload_anywhere_exact. Qed.
 Print Assumptions C11_upload_anywhere.
 
 (* regression witness of the fixed finding: a model holding an Upload below a plain dict *)
@@ -142,6 +143,53 @@ Example C11_model_under_dict_regression :
            ("variables", JObj [("w", JObj [("m", JObj [("file", JNull)])])])])
     (JObj [("0", JArr [JStr "variables.w.m.file"])]) [("0", 0)].
 Proof. vm_compute. repeat split. Qed.
+
+(* ---- exactly when nothing is sent: the request is an error (PydanticSerializationError escapes, no
+   POST) if and only if an UNSET is met below the top level through lists, dicts and SET model fields.
+   So the guard of C11_upload_anywhere is exact, and "UNSET never sent" holds with no guard at all. ---- *)
+Theorem C11_nothing_sent_iff_unset_met : forall url q o vars h t,
+  build_request url (mk_call q o (Some vars) h t) = RError <-> vars_reach_unset vars = true.
+Proof. exact error_iff_reach_unset. Qed.
+Print Assumptions C11_nothing_sent_iff_unset_met.
+
+Theorem C11_vars_ok_is_narrower : forall vars, vars_ok vars = true -> vars_reach_unset vars = false.
+Proof. exact vars_ok_no_reach. Qed.
+Print Assumptions C11_vars_ok_is_narrower.
+
+Example C11_unset_in_unset_field_is_sent :
+  let vars := [("a", VModel [(mk_mfield "x" None false, VUnset); (mk_mfield "y" None true, VLeaf (JInt 1))])] in
+  vars_ok vars = false /\ vars_reach_unset vars = false /\
+  build_request "u" (mk_call "q" None (Some vars) None None) =
+  RJson "u" [("Content-Type", "application/json")] None
+    (JObj [("query", JStr "q"); ("operationName", JNull); ("variables", JObj [("a", JObj [("y", JInt 1)])])]).
+Proof. vm_compute. repeat split. Qed.
+
+(* ---- the OpenTelemetry path: _execute_with_telemetry is a second copy of the dispatch (it processes
+   the variables and picks the sender itself).  Modelled separately (execute_with_telemetry) and proved
+   to send exactly the request of the plain path, for every call; the spans carry the same
+   query / operationName-or-"" / variables / map as the request. ---- *)
+Theorem C11_telemetry_same_request : forall root url c,
+  snd (execute_with_telemetry root url c) = build_request url c.
+Proof. exact telemetry_same_request. Qed.
+Print Assumptions C11_telemetry_same_request.
+
+Theorem C11_telemetry_spans : forall root url c,
+  exists child, fst (execute_with_telemetry root url c) = [mk_span root [component_attr]; child] /\
+  match build_request url c with
+  | RError => sp_attrs child = [component_attr]
+  | RJson _ _ _ b =>
+      sp_name child = "json request" /\
+      exists vj, b = body_json (c_query c) (c_opname c) vj /\
+        sp_attrs child = [component_attr; ("query", JStr (c_query c));
+                          ("operationName", opname_attr (c_opname c)); ("variables", vj)]
+  | RMultipart _ _ _ ops fm _ =>
+      sp_name child = "multipart request" /\
+      exists vj, ops = body_json (c_query c) (c_opname c) vj /\
+        sp_attrs child = [component_attr; ("query", JStr (c_query c));
+                          ("operationName", opname_attr (c_opname c)); ("variables", vj); ("map", fm)]
+  end.
+Proof. exact telemetry_spans. Qed.
+Print Assumptions C11_telemetry_spans.
 
 (* ---- the body: exactly query, operationName, variables; UNSET never sent ----
    For every call whose request is sent (JSON body or the multipart "operations" field): the body is
